@@ -7,6 +7,7 @@ backend as the handler-completion environment action); after every frame (PING/A
 compared with the specification's reaction, modulo the latitude RFC 9113 gives (escalation of a stream error to a connection error of the same code;
 REFUSED_STREAM or PROTOCOL_ERROR over the stream limit).
 """
+import json
 import os
 import random
 
@@ -155,6 +156,61 @@ def loop_layer(ctx):
             'model_only_residual_refusal (writer goroutine descheduled before the channel send)': residual}
 
 
+def stream_layer(ctx):
+    """H2Stream.tla: what the serve loop MAY do, over the events of its hook points (frame taken from the reader or the reader's error, frame
+    write started, handler started / pushed / returned).  TLC: the clauses of C13 as invariants and action properties of every behaviour the
+    guards admit, against an unconstrained client.  Binding (code -> spec): the repository's OWN pkg/http2 tests are re-run with recording on
+    (in-package recorder, one history per serverConn, order of the serve goroutine) and every connection must be a behaviour of the module;
+    a rejected connection is reported and validation continues with the connections after it."""
+    ctx.tlc('H2Stream', 'MC_C13_stream.cfg', label='serve-loop monitor: handlers only for new odd increasing request streams within the limit, GOAWAY covers and shrinks, nothing started after a connection error (arbitrary client)', timeout=900)
+    rec = os.path.join(ctx.scratch, 'h2rec.ndjson')
+    for f in (rec, rec + '.rc'):
+        if os.path.exists(f):
+            os.remove(f)
+    p = ctx.overlay_test('pkg/http2', ['http2/h2rec_test.go'], '.', timeout=900, env={'VF_H2REC': rec}, pkgname='http2')
+    if not os.path.exists(rec) or not os.path.exists(rec + '.rc'):
+        raise vf.Inconclusive("the repository's pkg/http2 tests did not run to the end with recording on (go test rc=%d):\n%s" % (p.returncode, vf.tail(p.stdout, 40)))
+    lines = open(rec).read().splitlines()
+    starts = [i for i, x in enumerate(lines) if '"e":"reset"' in x]
+    res = {'repo_tests_exit_code': int(open(rec + '.rc').read().strip() or 0), 'connections': len(starts), 'events': len(lines) - len(starts),
+           'connections_accepted': 0, 'connections_rejected': 0}
+    kinds = {}
+    for x in lines:
+        e = json.loads(x)
+        k = e['e'] + (':' + e['t'] if e['e'] in ('read', 'write') else '')
+        kinds[k] = kinds.get(k, 0) + 1
+    res['events_by_kind'] = kinds
+    if len(starts) < 50 or kinds.get('start', 0) < 100 or kinds.get('write:GOAWAY', 0) < 5 or kinds.get('write:RST_STREAM', 0) < 20:
+        raise vf.Inconclusive('recording of the repository tests is too thin to mean anything: %s' % kinds)
+    at, rounds = 0, 0
+    while at < len(starts) and rounds < 12:
+        rounds += 1
+        part = os.path.join(ctx.scratch, 'h2rec_part%d.ndjson' % rounds)
+        base = starts[at]
+        open(part, 'w').write('\n'.join(lines[base:]) + '\n')
+        tv = vf.validate_trace(ctx, 'Trace_H2Stream', 'Trace_C13_stream.cfg', part, 'trace_h2stream.ndjson',
+                               label='trace validation (serve-loop monitor), repository tests, round %d' % rounds, timeout=1200)
+        if not tv['invariant'] and tv['matched'] >= tv['total']:
+            res['connections_accepted'] += len(starts) - at
+            break
+        bad = min(base + tv['matched'], len(lines) - 1)
+        k = max(i for i in range(at, len(starts)) if starts[i] <= bad)
+        res['connections_accepted'] += k - at
+        res['connections_rejected'] += 1
+        end = starts[k + 1] if k + 1 < len(starts) else len(lines)
+        events = [json.loads(x) for x in lines[starts[k]:end]]
+        ev = json.loads(lines[bad])
+        what = {'start': 'handler_started_illegally', 'push': 'handler_started_illegally', 'done': 'handler_accounting'}.get(ev['e'])
+        if ev['e'] == 'write':
+            what = {'GOAWAY': 'goaway_last_stream', 'RST_STREAM': 'reset_not_permitted', 'HEADERS': 'frame_on_ended_stream', 'DATA': 'frame_on_ended_stream'}.get(ev['t'], 'write_not_permitted')
+        ctx.violation({'check': 'C13', 'kind': what or 'trace_rejected', 'frame': 'serve_loop_monitor'},
+                      'connection %d of the repository\'s pkg/http2 tests is not a behaviour of H2Stream.tla: %s; first unexplained event %s'
+                      % (ev['c'], tv['invariant'] or 'guard of the action false', {a: b for a, b in ev.items() if b != -1}),
+                      {'events_up_to_the_rejected_one': events[:bad - starts[k] + 1][-60:]})
+        at = k + 1
+    return res
+
+
 def run(ctx):
     t = ctx.tier
     if t == 'thorough':
@@ -252,9 +308,10 @@ def run(ctx):
             samples.append({'frames': trail, 'reactions': [s.get('got') for s in o['steps']]})
     hres = handlers_layer(ctx, drv)
     lres = loop_layer(ctx)
+    sres = stream_layer(ctx)
     if nerr > max(3, len(paths) // 50):
         raise vf.Inconclusive('%d of %d paths failed in the harness, e.g. %s' % (nerr, len(paths), [o['err'] for o in obs if o.get('err')][:2]))
-    cov = {'traces_validated_against_impl': len(paths) - nerr + hres['paths'], 'handler_scheduling_layer': hres, 'serve_loop_event_order': lres, 'samples': samples or [{'frames': [s.get('f') for s in paths[0]['steps']]}],
+    cov = {'traces_validated_against_impl': len(paths) - nerr + hres['paths'] + sres['connections_accepted'], 'handler_scheduling_layer': hres, 'serve_loop_event_order': lres, 'serve_loop_monitor_over_the_repository_tests': sres, 'samples': samples or [{'frames': [s.get('f') for s in paths[0]['steps']]}],
            'steps_compared': nsteps, 'header_blocks_replayed_by_kind': hkinds, 'graph_edges_total': len(g['edges']), 'live_edges_sampled': total, 'edge_sample_fraction': sample,
            'reactions_accepted_by_rfc_latitude_only': diverge, 'paths_cut_at_unobservable_step_inside_open_header_block': unobservable[0],
            'rule': 'paths from the initial state covering a seeded sample of the live edges of the TLC graph (frame alphabet: SETTINGS ok/ack/bad, HEADERS/CONTINUATION with '
